@@ -184,6 +184,12 @@ func c16Enumerate(tier string, yield func(any)) {
 			yield(&c16Case{Kind: "count", NP: np, PP: pp})
 		}
 	}
+	// registration numbers over the PrintableString repertoire and outside it, alone and next to the other members
+	for v := range c16RegNums {
+		for np := 0; np < 2; np++ {
+			yield(&c16Case{Kind: "regnum", NP: np, PP: v})
+		}
+	}
 	// shapes: every single-unit variant at every position against default neighbours
 	variants := c16Variants
 	for na := 1; na <= 3; na++ {
@@ -285,10 +291,81 @@ func c16Counts(x *engine.Ctx, c *c16Case) {
 	x.Outcome("count compared")
 }
 
+// registration numbers: inside the PrintableString repertoire (every special character of it), and outside it
+var c16RegNums = []string{"1-2-3", "A.b/c:d=e?f", "(x) +1,2 'q'", "0", "DE*0815", "R&D 17", "DE_0815", "info@kammer.example", "Ärztekammer 7", "a;b", "100%", "#1"}
+
+func c16RegInRepertoire(s string) bool {
+	for _, r := range s {
+		if !(r >= 'a' && r <= 'z' || r >= 'A' && r <= 'Z' || r >= '0' && r <= '9' || strings.ContainsRune(" '()+,-./:=?", r)) {
+			return false
+		}
+	}
+	return true
+}
+
+// c16RegNum: the registration number is a PrintableString; a value that a PrintableString cannot hold is
+// refused or (for the characters some encoders let pass) still written as PrintableString - never as another type.
+func c16RegNum(x *engine.Ctx, c *c16Case) {
+	val := c16RegNums[c.PP]
+	pi := refcfg.ProfessionInfo{ProfessionItems: []string{"Item"}, RegistrationNumber: refcfg.S(val)}
+	if c.NP == 1 {
+		pi.ProfessionOids = refcfg.Strs("1.2.276.0.76.4.30")
+		pi.AddProfessionInfo = refcfg.Bin([]byte{1, 2})
+	}
+	adm := &refcfg.Admission{Admissions: []refcfg.Admissions{{ProfessionInfos: []refcfg.ProfessionInfo{pi}}}}
+	cfg := &refcfg.CertCfg{Path: "ent.yaml", Subject: "CN=adm", KeyAlg: "P-224", Exts: []refcfg.Ext{{Kind: refcfg.KADM, ADM: adm}}}
+	d := &Dir{Certs: []*refcfg.CertCfg{cfg}}
+	g := Generate(d, func(w *simfs.World) { w.Put("ent.pem", FixtureKeyPEM("P-224-0")) }, drive.Default)
+	x.Nontrivial(fmt.Sprintf("regnum %d %d", c.NP, c.PP))
+	if g.Res.Panic != "" {
+		x.Violation("C16/panic/"+g.Res.PanicSite, g.Res.Panic)
+		return
+	}
+	in := c16RegInRepertoire(val)
+	a := ReadArtifact(g.W, cfg.Path)
+	if !g.Res.OK() || a.Cert == nil {
+		if in {
+			x.Violation("C16/admission/registration-number refused", fmt.Sprintf("registration number %q is a valid PrintableString, yet: %v", val, g.Res.Err()))
+		} else {
+			x.Outcome("regnum: value outside the PrintableString repertoire refused")
+		}
+		return
+	}
+	if in {
+		diffs, _, err := g.CompareEntity(d, "ent", "")
+		if err != nil {
+			x.Violation("C16/no-certificate", err.Error())
+			return
+		}
+		reportOwned(x, "C16", diffs)
+		x.Outcome("regnum: compared")
+		return
+	}
+	exts := a.Cert.ExtByOID("1.3.36.8.3.3")
+	if len(exts) != 1 {
+		x.Violation("C16/admission/extension-count", fmt.Sprintf("%d admission extensions", len(exts)))
+		return
+	}
+	i := bytes.Index(exts[0].Value, []byte(val))
+	if i < 2 || exts[0].Value[i-2] != 0x13 {
+		tag := "value not found"
+		if i >= 2 {
+			tag = fmt.Sprintf("tag 0x%02x", exts[0].Value[i-2])
+		}
+		x.Violation("C16/admission/registration-number string-type", fmt.Sprintf("registration number %q does not fit a PrintableString; the certificate was issued with it as %s (not refused, not PrintableString): %x", val, tag, exts[0].Value))
+		return
+	}
+	x.Outcome("regnum: out-of-repertoire value written as PrintableString by the encoder")
+}
+
 func c16Exec(x *engine.Ctx, cc any) {
 	c := cc.(*c16Case)
 	if c.Kind == "count" {
 		c16Counts(x, c)
+		return
+	}
+	if c.Kind == "regnum" {
+		c16RegNum(x, c)
 		return
 	}
 	adm := &refcfg.Admission{AdmissionAuthority: c16GN(c.TopAuth, "top")}
@@ -432,7 +509,7 @@ func init() {
 	register(&engine.Check{
 		ID:          "C16",
 		Level:       "exploration",
-		Rule:        "one admission x one profession info over the full product: top-level authority {none,ip,dns,mail,url} x admission authority (5) x admission naming authority subsets of {oid,url,text} (all 8) x profession naming authority (same) x professionOids {none,1,2} x registrationNumber {none,set} x addProfessionInfo {none,!binary,!null,!empty,1000-byte !binary}, item sets incl. non-ASCII; plus 1..3 admissions x 1..3 profession infos with each of 22 single-member variants placed at every position against default neighbours, with two variants (8 x 8, a third of them in quick) at every ordered pair of positions using position-dependent values, 22 fully populated trees per shape, and every string-, OID- and list-valued member at 25 lengths around the 127/128 and 255/256 DER length-form boundaries. Each through a whole run; the value must equal the reference DER encoding of CommonPKI AdmissionSyntax (explicit [0]/[1] wrappers, IA5String url, UTF8String text/items, PrintableString registration number, OCTET STRING info, GeneralName tags [1]/[2]/[6]/[7]). non-trivial = distinct case",
+		Rule:        "one admission x one profession info over the full product: top-level authority {none,ip,dns,mail,url} x admission authority (5) x admission naming authority subsets of {oid,url,text} (all 8) x profession naming authority (same) x professionOids {none,1,2} x registrationNumber {none,set} x addProfessionInfo {none,!binary,!null,!empty,1000-byte !binary}, item sets incl. non-ASCII; plus 1..3 admissions x 1..3 profession infos with each of 22 single-member variants placed at every position against default neighbours, with two variants (8 x 8, a third of them in quick) at every ordered pair of positions using position-dependent values, 22 fully populated trees per shape, and every string-, OID- and list-valued member at 25 lengths around the 127/128 and 255/256 DER length-form boundaries. Each through a whole run; the value must equal the reference DER encoding of CommonPKI AdmissionSyntax (explicit [0]/[1] wrappers, IA5String url, UTF8String text/items, PrintableString registration number, OCTET STRING info, GeneralName tags [1]/[2]/[6]/[7]). non-trivial = distinct case; 12 registration numbers (every special character of the PrintableString repertoire; 8 values outside it, which must be refused or still be written as PrintableString)",
 		Bound:       map[string]string{"admissions": "<=3", "profession infos": "<=3"},
 		Assumptions: []string{"an empty naming authority, an empty professionItems list and an empty professionOids list have no agreed encoding and are not in the alphabet"},
 		Budget:      budgets(quickBudget, thoroughBudget),
